@@ -186,6 +186,7 @@ def _buffer_text(tree):
 def mutants():
     from ..selftest import TextMutant as T, AstMutant
     return [
+        T("drop-xmlns-attrs", REL, "            attrs = AttributesNSImpl(token[\"data\"],\n                                     unadjustForeignAttributes)", "            attrs = AttributesNSImpl({k: v for k, v in token[\"data\"].items() if k[0] is None},\n                                     unadjustForeignAttributes)", "R19.2"),
         AstMutant("text-buffered-never-flushed", REL, _buffer_text, "R19.2"),
         T("emptytag-no-end", REL, "            if type == \"EmptyTag\":\n                handler.endElementNS((token[\"namespace\"], token[\"name\"]),\n                                     token[\"name\"])\n", "", "R19.2"),
         T("end-wrong-ns", REL, "        elif type == \"EndTag\":\n            handler.endElementNS((token[\"namespace\"], token[\"name\"]),",
